@@ -29,6 +29,10 @@ NOTES = [
     "text that step asked about (the harness keeps its own record of what the submission is)",
     "pattern trees satisfy opLeaves (Add/Mult operator nodes are leaves): true of every ast tree, checked by the "
     "driver on every request",
+    "continued matches (use_previous) are not in the port: the search runs them on the real code only and reads "
+    "'bound to a single student identifier throughout the match' for the continued match TOGETHER with the match it "
+    "continues - the inherited AstMap's symbol tables are added to the returned map's before checkMatch, whether or "
+    "not the matcher copied them",
 ]
 
 if __name__ == "__main__":
